@@ -5,7 +5,7 @@ from .c03 import make_file
 
 RULE = ("real Pose.read calls in real threads under a deterministic line-level scheduler (sys.settrace; yield points = every source line of the modules that reference the "
         "process-global header cache, found by an ast scan of the working tree); pairs (thorough: also triples) of files with equal / different headers, bytes and windowed stream sources, "
-        "cache initially {empty, A, B}; all single-preemption schedules, double-preemption schedules exhaustively (thorough) or sampled (quick); per thread, and for one read of each file that follows the concurrent ones: result vs its single-threaded result "
+        "cache initially {empty, A, B}; all single-preemption schedules; double-preemption schedules: EVERY pair of preemption points inside the code that deals with the shared cache (ast: the cache class and every function naming it) in both tiers, and a sample of the other pairs (120 quick / 3000 thorough per configuration); try-locks (acquire(blocking=False)) fail at once as the real lock's do; per thread, and for one read of each file that follows the concurrent ones: result vs its single-threaded result "
         "(oracle), and header/hit-miss vs the Lean protocol model run on the observed order of cache sections; non-trivial = distinct (files, sources, cache, schedule)")
 ASSUMPTIONS = ["CPython's GIL makes one attribute load/store and one lock acquire/release atomic; preemption inside a source line or inside C extensions is not explored",
                "preemption points are source lines of pose_format modules; of a line executed many times in a loop only the first occurrences are preemption candidates"]
@@ -24,6 +24,24 @@ def cache_modules():
     return found
 
 
+def hot_ranges(mods):
+    """source ranges that deal with the shared cache: every function of the scanned modules whose body names the cache class, and the cache class itself"""
+    out = {}
+    for m in mods:
+        tree = ast.parse(open(m.__file__).read())
+        rs = []
+        for n in ast.walk(tree):
+            if isinstance(n, ast.ClassDef) and n.name == "PoseHeaderCache":
+                rs.append((n.lineno, n.end_lineno))
+            elif isinstance(n, (ast.FunctionDef, ast.AsyncFunctionDef)) and any(isinstance(x, ast.Name) and x.id == "PoseHeaderCache" for x in ast.walk(n)):
+                rs.append((n.lineno, n.end_lineno))
+        out[os.path.basename(m.__file__)] = rs
+    return out
+
+
+HOT = {}
+
+
 def run(ctx):
     from pose_format import Pose
     from pose_format.pose_header import PoseHeaderCache
@@ -36,6 +54,8 @@ def run(ctx):
     root = os.path.dirname(pose_format.__file__)
     files_traced = {os.path.join(dp, f) for dp, _, fs in os.walk(root) for f in fs if f.endswith(".py")}
     ctx.extra["modules_referencing_cache"] = sorted(os.path.basename(m.__file__) for m in mods)
+    HOT.clear(); HOT.update(hot_ranges(mods))
+    ctx.extra["cache_code_ranges"] = {k: [list(r) for r in v] for k, v in HOT.items()}
     nlocks = S.instrument_locks(mods + [RD])
     ctx.extra["modules_with_yield_points"] = "every .py file under pose_format/ (%d files)" % len(files_traced)
     ctx.extra["locks_instrumented"] = nlocks
@@ -137,21 +157,28 @@ def explore(ctx, rng, files_traced, log):
             def candidates(tid):
                 tr = one([(tid, None)])
                 locs = [w for t, w in tr if t == tid]
-                seen, ks = {}, []
+                seen, ks, hot = {}, [], []
                 for k, w in enumerate(locs):
                     seen[w] = seen.get(w, 0) + 1
                     if k >= 1 and seen[w] <= reps:
                         ks.append(k)
-                return len(locs), ks
-            n0, k0 = candidates(0)
-            n1, k1 = candidates(1)
+                    if k >= 1 and len(w) > 2 and any(a <= w[1] <= b for a, b in HOT.get(w[2], ())):
+                        hot.append(k)
+                return len(locs), ks, hot
+            n0, k0, h0 = candidates(0)
+            n1, k1, h1 = candidates(1)
             for first, ks in ((0, k0), (1, k1)):
                 for k in ks:
                     one([(first, k), (1 - first, None)])                         # one preemption
             # two preemptions
             pairs = [(first, k, m) for first, ks, ms in ((0, k0, k1), (1, k1, k0)) for k in ks for m in ms]
-            pairs = rng.sample(pairs, min(len(pairs), ctx.pick(60, 1500)))
+            pairs = rng.sample(pairs, min(len(pairs), ctx.pick(120, 3000)))
             for first, k, m in pairs:
+                one([(first, k), (1 - first, m), (first, None)])
+            # two preemptions, both inside the code that deals with the shared cache: ALL of them, in both tiers
+            hot_pairs = [(first, k, m) for first, ks, ms in ((0, h0, h1), (1, h1, h0)) for k in ks for m in ms]
+            ctx.count("hot double preemptions", len(hot_pairs))
+            for first, k, m in hot_pairs:
                 one([(first, k), (1 - first, m), (first, None)])
         ctx.sample({"threads": [{"file": n, "source": k, "file_bytes": len(pool[n])} for n, k in combo], "steps_alone": [n0, n1]})
     ctx.extra["schedules_run"] = nsched
